@@ -11,6 +11,9 @@ table of transitions `(UTC instant at which the offset starts to apply, offset)`
 * offsets are whole seconds east of UTC (`utc_offset + dst_offset`), `|offset| < 86 400`;
 * chrono-tz resolves local times on whole seconds (`timestamp()`); transitions and offsets being
   whole seconds, comparing nanosecond counts is equivalent.
+`datetime` follows `TzLocation::datetime` of /repo e1e5204: `latest()` of the requested local time
+when it exists, otherwise `earliest()` of the first existing time among `requested + k min`, walked
+back second by second (`earliest()`) while the local time exists.
 What is NOT modelled: the content of the tz database (the table is an input; the correspondence
 harness extracts it from chrono-tz), leap seconds, coordinates / sun events (C11).
 Core-only imports.
